@@ -498,7 +498,7 @@ func c22Ladder(c *Ctx, f *ssa.Function) {
 	}
 	type want struct {
 		lenLen, lenByte int64
-		err            bool
+		err             bool
 	}
 	spec := func(d int64) want {
 		switch {
